@@ -119,6 +119,50 @@ Proof.
   - intro Hok. apply (run_targets_progress txt L SU FU targets [] st0 (inv0 txt L) N HL Hok).
 Qed.
 
+(* the order of the targets is irrelevant for what is returned (it only shows in the order of handler calls) *)
+Theorem complete_read_target_order : forall T1 T2,
+  Permutation T1 T2 -> NoDup T1 -> (forall d, In d T1 -> In d L) ->
+  match complete_read txt T1 L, complete_read txt T2 L with
+  | Ok o1, Ok o2 => odirect o1 = odirect o2 /\ otrans o1 = otrans o2
+  | Err _, Err _ => True
+  | _, _ => False
+  end.
+Proof.
+  intros T1 T2 P N1 HL1.
+  assert (N2 : NoDup T2) by (eapply Permutation_NoDup; eassumption).
+  assert (HL2 : forall d, In d T2 -> In d L) by (intros d Hd; apply HL1; eapply Permutation_in; [apply Permutation_sym; exact P|exact Hd]).
+  unfold complete_read.
+  destruct (run_targets txt L st0 T1) as [st1|e1] eqn:R1, (run_targets txt L st0 T2) as [st2|e2] eqn:R2.
+  - destruct (run_targets_spec T1 st1 N1 HL1 R1) as [_ [A1 [A2 [A3 [A4 _]]]]].
+    destruct (run_targets_spec T2 st2 N2 HL2 R2) as [_ [B1 [B2 [B3 [B4 _]]]]].
+    assert (Hd : forall t, In t (rdirect st1) <-> In t (rdirect st2)).
+    { intro t. rewrite A1, B1. split; intros [d [Hd Hr]]; exists d; (split; [|assumption]).
+      - eapply Permutation_in; eassumption.
+      - eapply Permutation_in; [apply Permutation_sym; exact P|assumption]. }
+    assert (Ht : forall t, In t (rtrans st1) <-> In t (rtrans st2)).
+    { intro t. rewrite A2, B2. split; intros [Hn [t0 [H0 Hs]]]; (split; [rewrite Hd in *; assumption|exists t0; split; [apply Hd; assumption|assumption]])
+        || (split; [rewrite <- Hd; assumption|exists t0; split; [apply Hd; assumption|assumption]]). }
+    assert (Ed : sort_trees (rdirect st1) = sort_trees (rdirect st2)).
+    { rewrite sort_trees_is. apply isort_perm_eq.
+      - apply NoDup_Permutation; [eapply NoDup_app_l; exact A3|eapply NoDup_app_l; exact B3|exact Hd].
+      - rewrite map_app in A4. eapply NoDup_app_l. exact A4. }
+    assert (Et : sort_trees (rtrans st1) = sort_trees (rtrans st2)).
+    { rewrite sort_trees_is. apply isort_perm_eq.
+      - apply NoDup_Permutation; [eapply NoDup_app_r; exact A3|eapply NoDup_app_r; exact B3|exact Ht].
+      - rewrite map_app in A4. eapply NoDup_app_r. exact A4. }
+    rewrite Ed, Et.
+    destruct (ports_ok _ && minors_ok _); simpl; auto.
+  - exfalso. assert (Hex : exists st, run_targets txt L st0 T2 = Ok st).
+    { apply (run_targets_ok_iff T2 N2 HL2). intros d Hd.
+      apply (proj1 (run_targets_ok_iff T1 N1 HL1) (ex_intro _ st1 R1)). eapply Permutation_in; [apply Permutation_sym; exact P|exact Hd]. }
+    destruct Hex as [st H]. congruence.
+  - exfalso. assert (Hex : exists st, run_targets txt L st0 T1 = Ok st).
+    { apply (run_targets_ok_iff T1 N1 HL1). intros d Hd.
+      apply (proj1 (run_targets_ok_iff T2 N2 HL2) (ex_intro _ st2 R2)). eapply Permutation_in; [exact P|exact Hd]. }
+    destruct Hex as [st H]. congruence.
+  - exact I.
+Qed.
+
 (* the model never takes the branch that stands for "a pending definition is not cached" *)
 Theorem complete_read_reachable : forall targets,
   NoDup targets -> (forall d, In d targets -> In d L) -> complete_read txt targets L <> Err EUnreachable.
